@@ -112,6 +112,83 @@ func (c *Ctx) oblige(st *State, name, kind string, claim *Term, src string, pos 
 	if st.Disc != nil {
 		return
 	}
+	if kind == "ensures" || strings.HasPrefix(kind, "invariant") || kind == "calls" || kind == "lemma" {
+		if parts := splitClaim(claim); len(parts) > 1 {
+			for i, p := range parts {
+				c.oblige1(st, fmt.Sprintf("%s.%d", name, i+1), kind, p, src, pos)
+			}
+			return
+		}
+	}
+	c.oblige1(st, name, kind, claim, src, pos)
+}
+
+// splitClaim splits conjunctions (also under one universal quantifier and under implications) into separate claims.
+func splitClaim(t *Term) []*Term {
+	switch t.Op {
+	case "and":
+		var out []*Term
+		for _, a := range t.Args {
+			out = append(out, splitClaim(a)...)
+		}
+		return out
+	case "=>":
+		ps := splitClaim(t.Args[1])
+		if len(ps) <= 1 {
+			return []*Term{t}
+		}
+		var out []*Term
+		for _, p := range ps {
+			out = append(out, Implies(t.Args[0], p))
+		}
+		return out
+	case "forall":
+		ps := splitClaim(t.Args[0])
+		if len(ps) <= 1 {
+			return []*Term{t}
+		}
+		var out []*Term
+		for _, p := range ps {
+			out = append(out, TS.intern(&Term{Op: "forall", Sort: BoolSort, Args: []*Term{p}, Bound: t.Bound, Pats: filterPats(t.Pats, p)}))
+		}
+		return out
+	}
+	return []*Term{t}
+}
+
+// filterPats keeps the patterns whose terms occur in body.
+func filterPats(pats [][]*Term, body *Term) [][]*Term {
+	if len(pats) == 0 {
+		return nil
+	}
+	occ := map[int]bool{}
+	var walk func(t *Term)
+	walk = func(t *Term) {
+		if occ[t.id] {
+			return
+		}
+		occ[t.id] = true
+		for _, a := range t.Args {
+			walk(a)
+		}
+	}
+	walk(body)
+	var out [][]*Term
+	for _, p := range pats {
+		ok := true
+		for _, t := range p {
+			if !occ[t.id] {
+				ok = false
+			}
+		}
+		if ok {
+			out = append(out, p)
+		}
+	}
+	return out
+}
+
+func (c *Ctx) oblige1(st *State, name, kind string, claim *Term, src string, pos token.Pos) {
 	if claim.IsTrue() {
 		// still count it: trivially discharged
 		c.Obs = append(c.Obs, &Obligation{Name: name, Kind: kind, Fn: fnDisplay(c.Fn), Claim: claim, Src: src, Pos: c.Eng.posStr(pos), Path: st.PathID, Ctx: c})
@@ -201,6 +278,24 @@ func (c *Ctx) step(st *State, onReturn func(st *State, ret Value)) (forks []*Sta
 		other.PathID = c.newPathID()
 		st.assume(cond)
 		other.assume(Not(cond))
+		if j := c.mergePoint(fr, fr.Block); j != nil {
+			depth := len(st.Frames)
+			var arrivals []*State
+			if !c.enterBlock(st, tb) {
+				arrivals = append(arrivals, c.runUntil(st, depth, j, onReturn)...)
+			}
+			c.Paths++
+			if !c.enterBlock(other, fb) {
+				arrivals = append(arrivals, c.runUntil(other, depth, j, onReturn)...)
+			}
+			if len(arrivals) == 0 {
+				return nil, true
+			}
+			merged := c.mergeStates(arrivals)
+			// continue with the first state in place of st
+			*st = *merged[0]
+			return merged[1:], false
+		}
 		d1 := c.enterBlock(st, tb)
 		d2 := c.enterBlock(other, fb)
 		if !d2 {
@@ -287,6 +382,15 @@ func (c *Ctx) enterBlock(st *State, b *ssa.BasicBlock) bool {
 		fr.Prev = prev
 		fr.Block = b
 		fr.PC = len(phis)
+		// leaving cut loops of this frame: their write-set checks no longer apply
+		for len(st.Loops) > 0 {
+			al := st.Loops[len(st.Loops)-1]
+			if al.Frame != len(st.Frames) || al.L == nil || al.L.Blocks[b] {
+				break
+			}
+			st.Loops = st.Loops[:len(st.Loops)-1]
+			st.Record = st.Record[:len(st.Record)-1]
+		}
 	}
 	if loop == nil {
 		setPhis()
@@ -331,7 +435,7 @@ func (c *Ctx) enterBlock(st *State, b *ssa.BasicBlock) bool {
 	}
 	// discover the write set of the loop body, then havoc
 	ws := c.discoverWrites(st, fr, loop, phis)
-	al := &ActiveLoop{Header: b, Frame: len(st.Frames), Entry: st.snapshot(), Spec: ls, ID: loop.ID, Written: ws}
+	al := &ActiveLoop{L: loop, Header: b, Frame: len(st.Frames), Entry: st.snapshot(), Spec: ls, ID: loop.ID, Written: ws}
 	c.havocPhis(st, fr, phis)
 	c.havocWrites(st, ws)
 	st.Loops = append(st.Loops, al)
